@@ -1470,7 +1470,16 @@ class ArrayToBlocks(Linop):
         return BlocksToArray(self.ishape, self.blk_shape, self.blk_strides)
 
     def _normal_linop(self):
-        return Identity(self.ishape)
+        D = len(self.blk_shape)
+        if all(
+            b == s and i % b == 0
+            for i, b, s in zip(
+                self.ishape[-D:], self.blk_shape, self.blk_strides
+            )
+        ):
+            return Identity(self.ishape)
+
+        return self.H * self
 
 
 class BlocksToArray(Linop):
@@ -1509,7 +1518,10 @@ class BlocksToArray(Linop):
         return ArrayToBlocks(self.oshape, self.blk_shape, self.blk_strides)
 
     def _normal_linop(self):
-        return Identity(self.ishape)
+        if all(s >= b for b, s in zip(self.blk_shape, self.blk_strides)):
+            return Identity(self.ishape)
+
+        return self.H * self
 
 
 def Gradient(ishape, axes=None):
